@@ -202,3 +202,41 @@ def kernel_fallback(rep, cfg, dem, base, W, ps, exp_w, exp_ret, coef, coefext, i
     r = kprove.prove_routine_all_lanes(smod, name, arg_cells, out_cells, conv(exp_ret) if exp_ret is not None else None, sym, W=W)
     kcheck.record(rep, 'value:' + tag, 'matrix-value-kernel', site, r,
                   'raw integer arithmetic on lane values: exact-integer analysis with all lanes tracked, callees by contract')
+
+
+def matrix_summaries(mod, pat):
+    """wrapper-mode summaries of the dot / sparse / dense matrix kernels from their matrix specification (the family check
+    discharges that specification for each kernel): used by a caller whose analysis cannot follow a kernel's body"""
+    S = {}
+    for n in mod.find_re(pat):
+        dem = mod.dem[n]
+        base = re.match(r'Goldilocks::(\w+)\(', dem).group(1)
+        W = 8 if '512' in base else 4
+        try:
+            ps = harness.describe(mod, n)
+            pn = [p_.name for p_ in ps]
+            exp_w, exp_ret, coefext, desc = spec_for(base, W, pn)
+        except Incomplete:
+            continue
+
+        def h(I, args, ins, ps=ps, pn=pn, exp_w=exp_w, exp_ret=exp_ret, coefext=coefext, W=W):
+            mp = {}
+            for p_, a in zip(ps, args):
+                ncell = coefext.get(p_.name)
+                if ncell is None:
+                    ncell = W if re.match(r'V\d', p_.dty) else 0
+                for k in range(ncell):
+                    v = contracts.to_fv(I.load_cell(a.add(8 * k), 8))
+                    mp['%s[%d]' % (p_.name, k)] = v.nf
+            argof = dict(zip(pn, args))
+
+            def ev(poly):
+                return poly.subst({x: mp[x] for x in poly.vars() if x in mp}).modp()
+            vals = {(r_, off): ev(sp) for (r_, off), sp in exp_w.items()}
+            for (r_, off), nf in vals.items():
+                I.store_cell(argof[r_].add(off), FV(nf, 'u64'), 8)
+            if exp_ret is not None:
+                return FV(ev(exp_ret), 'u64')
+            return None
+        S[n] = h
+    return S
